@@ -394,7 +394,7 @@ Proof.
     intros y body _ k IHk g sh pty f' Hu Hf H.
     cbn [uninit_form] in Hu. apply andb_prop in Hu; destruct Hu as (Hu & Huk). apply andb_prop in Hu; destruct Hu as (Huy & Hub).
     apply tc_new_inv in H.
-    destruct H as (Hp & Hc & Hr & ns & gl & gr0 & bt & xs & tk & gr & b' & k' & Hs & Hns & _ & _ & _ & _ & Hgr & _ & Hk).
+    destruct H as (Hp & Hc & Hr & ns & gl & gr0 & bt & xs & tk & gr & b' & k' & Hs & Hns & _ & _ & _ & _ & Hgr & _ & Hk & _).
     rewrite is_provider_prov in Hp.
     pose proof (split_gamma_cnt _ _ _ _ _ _ Hs) as Hcnt.
     assert (Hcnt' : forall x, ind x g = sum_occ None x (free_names body) + ind x gr0).
